@@ -308,6 +308,22 @@ def illformed_catalogue():
         ("<!DOCTYPE r [<!ENTITY e '<a>'>]><r>&e;</a></r>", "start tag in entity, end tag outside"),
         ("<!DOCTYPE r [<!ENTITY e '</a>'>]><r><a>&e;</r>", "end tag in entity"),
         ("<!DOCTYPE r [<!ENTITY e '<b/></r>'>]><r>&e;<x/>", "entity closes the root"),
+        # D23-D26: the literals of an external identifier, the space before NDATA, the pseudo-attribute names
+        ("<!DOCTYPE a SYSTEM '\x01'><a/>", "non-Char in a system literal"),
+        ("<!DOCTYPE a PUBLIC 'x' 'y\x02'><a/>", "non-Char in the system literal after a public identifier"),
+        ("<!DOCTYPE a [<!ENTITY e SYSTEM '\x0b'>]><a/>", "non-Char in the system literal of an external entity"),
+        ("<!DOCTYPE a [<!ENTITY % e PUBLIC 'p' '\uffff'>]><a/>", "non-Char in the system literal of an external parameter entity"),
+        ("<!DOCTYPE a PUBLIC '{}' 'x'><a/>", "character outside PubidChar in a public identifier"),
+        ("<!DOCTYPE a PUBLIC 'a\"b' 'x'><a/>", "double quote in a public identifier"),
+        ("<!DOCTYPE a PUBLIC '\u00e9' 'x'><a/>", "non-ASCII character in a public identifier"),
+        ("<!DOCTYPE a [<!NOTATION n PUBLIC 'ok'><!ENTITY e PUBLIC '<' 'x'>]><a/>", "character outside PubidChar in the public identifier of an entity"),
+        ("<!DOCTYPE a [<!ENTITY e SYSTEM 'x'NDATA n>]><a/>", "no white space before NDATA"),
+        ("<!DOCTYPE a [<!ENTITY e PUBLIC 'p' \"x\"NDATA n>]><a/>", "no white space before NDATA"),
+        ("<?xml versionx='1.0'?><a/>", "XML declaration with a pseudo-attribute name that only starts with 'version'"),
+        ("<?xml version:y='1.0'?><a/>", "XML declaration with a qualified pseudo-attribute name"),
+        ("<?xml version='1.0' encodingZ='u'?><a/>", "XML declaration with a pseudo-attribute name that only starts with 'encoding'"),
+        ("<?xml version='1.0' standalone-x='yes'?><a/>", "XML declaration with a pseudo-attribute name that only starts with 'standalone'"),
+        ("<?xml version='1.0' encoding='u' standalone.='yes'?><a/>", "XML declaration with a pseudo-attribute name that only starts with 'standalone'"),
         # D22: text inside a quoted literal of a skipped declaration is not markup -- an entity "declared" there is undeclared
         ("<!DOCTYPE a [<!NOTATION n SYSTEM '><!ENTITY e \"evil\"><!ELEMENT x '>]><a>&e;</a>", "undefined entity reference (its declaration is text inside a system literal)"),
         ("<!DOCTYPE a [<!ATTLIST a b CDATA \"><!ENTITY e 'evil'><!ELEMENT x \">]><a b='&e;'/>", "undefined entity reference in an attribute (its declaration is text inside a default value)"),
@@ -428,6 +444,10 @@ def c08_cases(tier, seed):
     for s_ in ("<!DOCTYPE a [<!NOTATION n SYSTEM '>'>]><a/>", "<!DOCTYPE a [<!ATTLIST a b CDATA \">\">]><a/>",
               "<!DOCTYPE a [<!NOTATION n SYSTEM \"a>'b\"><!ATTLIST a c CDATA '>\">'><!ENTITY e 'v'>]><a>&e;</a>"):
         cs.append(Case(s_, "", True, meta={"gen": "d22-wellformed", "wellformed": "'>' inside a quoted literal of a skipped declaration"}))
+    for s_ in ("<!DOCTYPE a PUBLIC \"-//W3C//DTD X 1.0//EN\" 'x.dtd'><a/>", "<!DOCTYPE a PUBLIC \"o'r (1+2),./:=?;!*#@$_%\" 'x'><a/>",
+               "<!DOCTYPE a PUBLIC 'a\r\n b' \"s'\u00e9\"><a/>", "<!DOCTYPE a [<!ENTITY e SYSTEM 'x' NDATA n><!ENTITY f PUBLIC '' ''\n\tNDATA\tn>]><a/>",
+               "<?xml version='1.0' encoding='utf-8' standalone='yes'?><a/>", "<!DOCTYPE a SYSTEM '\t\u0085\u00a0'><a/>"):
+        cs.append(Case(s_, "", True, meta={"gen": "d23-wellformed", "wellformed": "external identifiers, NDATA and the XML declaration written as the grammar requires"}))
     cs += gens.g_meta(3 if q else 4, embed=True)
     cs += gens.g_tokens(3 if q else 4, flags="")
     cs += gens.g_nonchar()
